@@ -68,9 +68,9 @@ class Built:
     pass
 
 
-def build(design, style="proc"):
+def build(design, style="proc", hist=None):
     """Returns Built with .top (Module), .modules {name: Module}, .insts {(module, inst): object}."""
-    inc = Incremental(design, style)
+    inc = Incremental(design, style, hist)
     while inc.remaining():
         inc.next_module()
     return inc.result()
@@ -80,8 +80,11 @@ class Incremental:
     """Builds the modules of a design one at a time (children first), so that histories can elaborate or export
     some modules before their parents even exist."""
 
-    def __init__(self, design, style="proc"):
-        self.design, self.style = design, style
+    def __init__(self, design, style="proc", hist=None):
+        """`hist`: optional object that makes the connections itself (C04 operation histories):
+        hist.pre(mj, insts, attrs, ns, mk) before the module object exists, hist.post(mj, insts, mk) after,
+        hist.getref(mj, inst, port) whenever `inst.port` is evaluated."""
+        self.design, self.style, self.hist = design, style, hist
         self.defs = {}
         for b in design["bundles"]:
             if b["name"] == "Diff":
@@ -156,6 +159,8 @@ class Incremental:
             if k == "concat":
                 return h.Concat(*[mk(p) for p in c["ps"]])
             if k == "pref":
+                if self.hist is not None:
+                    self.hist.getref(mj, c["inst"], c["port"])
                 return getattr(insts[c["inst"]], c["port"])
             if k == "noconn":
                 if c.get("id") is not None:
@@ -181,6 +186,8 @@ class Incremental:
             raise ValueError(k)
 
         def assemble():
+            if self.hist is not None:
+                self.hist.pre(mj, insts, attrs, ns, mk)
             if style == "class":
                 m = h.module(type(mj["name"], (), dict(attrs)))
             else:
@@ -191,6 +198,9 @@ class Incremental:
                 if getattr(o, "_self_ref", False):
                     o.of = m  # circular instantiation
             # connections are made once every instance exists (port references need their instance)
+            if self.hist is not None:
+                self.hist.post(mj, insts, mk)
+                return m
             for ij in mj["insts"]:
                 for port, c in ij["conns"]:
                     insts[ij["n"]].connect(port, mk(c))
